@@ -724,6 +724,9 @@ func (s *c17state) cutsOf(st []byte, bounds []int) {
 		if !boundary && err == nil {
 			s.out.Violate("cut-partial-no-error", fmt.Sprintf("prefix of %d/%d bytes ends inside an event but no error was returned; output %q", k, len(st), clipb(ob.Bytes())), s.rep())
 		}
+		if k > 0 && k < bounds[0] {
+			c17cut(s, st[:bounds[0]], k)
+		}
 		if boundary && !bytes.Equal(ob.Bytes(), want) {
 			s.out.Violate("cut-boundary-output", fmt.Sprintf("prefix of %d/%d bytes at an event boundary: output %q, expected exactly %q", k, len(st), clipb(ob.Bytes()), clipb(want)), s.rep())
 		}
